@@ -677,79 +677,108 @@ func constStr(t *Term) string {
 	return fmt.Sprintf("#b%0*b", int(t.W), t.K)
 }
 
-// Printer renders a set of assertions sharing sub-DAGs via define-fun.
+// Printer renders assertions; sub-DAGs shared inside one assertion are bound by nested lets
+// (z3 4.8.12 expands chains of define-fun super-linearly, lets are cheap).
 type Printer struct {
-	sb    *strings.Builder
+	sb *strings.Builder
+}
+
+func NewPrinter(sb *strings.Builder) *Printer { return &Printer{sb: sb} }
+
+// Prepare is kept for API compatibility.
+func (p *Printer) Prepare(roots ...*Term) {}
+
+type letCtx struct {
 	ref   map[*Term]int
 	names map[*Term]string
-	n     int
+	order []*Term
 }
 
-func NewPrinter(sb *strings.Builder) *Printer {
-	return &Printer{sb: sb, ref: map[*Term]int{}, names: map[*Term]string{}}
-}
-
-func (p *Printer) count(t *Term) {
-	p.ref[t]++
-	if p.ref[t] > 1 {
+func (c *letCtx) count(t *Term) {
+	if t.Op == OpConst || t.Op == OpVar {
+		return
+	}
+	c.ref[t]++
+	if c.ref[t] > 1 {
 		return
 	}
 	for _, a := range t.A {
-		p.count(a)
+		c.count(a)
 	}
 }
 
-// Prepare must be called with all roots before Emit.
-func (p *Printer) Prepare(roots ...*Term) {
-	for _, r := range roots {
-		p.count(r)
+// post-order list of shared nodes
+func (c *letCtx) collect(t *Term, seen map[*Term]bool) {
+	if t.Op == OpConst || t.Op == OpVar || seen[t] {
+		return
+	}
+	seen[t] = true
+	for _, a := range t.A {
+		c.collect(a, seen)
+	}
+	if c.ref[t] > 1 {
+		c.names[t] = fmt.Sprintf("_t%d", len(c.order)+1)
+		c.order = append(c.order, t)
 	}
 }
 
-func (p *Printer) expr(t *Term, top bool) string {
+func (c *letCtx) expr(sb *strings.Builder, t *Term, top bool) {
 	if t.Op == OpConst {
-		return constStr(t)
+		sb.WriteString(constStr(t))
+		return
 	}
 	if t.Op == OpVar {
-		return t.Name
+		sb.WriteString(t.Name)
+		return
 	}
 	if !top {
-		if n, ok := p.names[t]; ok {
-			return n
-		}
-		if p.ref[t] > 1 || t.size > 40 {
-			s := p.expr(t, true)
-			p.n++
-			n := fmt.Sprintf("_t%d", p.n)
-			fmt.Fprintf(p.sb, "(define-fun %s () %s %s)\n", n, sortStr(t.W), s)
-			p.names[t] = n
-			return n
+		if n, ok := c.names[t]; ok {
+			sb.WriteString(n)
+			return
 		}
 	}
-	var b strings.Builder
 	switch t.Op {
 	case OpExtract:
-		fmt.Fprintf(&b, "((_ extract %d %d) %s)", int(t.K)+int(t.W)-1, t.K, p.expr(t.A[0], false))
+		fmt.Fprintf(sb, "((_ extract %d %d) ", int(t.K)+int(t.W)-1, t.K)
+		c.expr(sb, t.A[0], false)
+		sb.WriteByte(')')
 	case OpZExt:
-		fmt.Fprintf(&b, "((_ zero_extend %d) %s)", t.W-t.A[0].W, p.expr(t.A[0], false))
+		fmt.Fprintf(sb, "((_ zero_extend %d) ", t.W-t.A[0].W)
+		c.expr(sb, t.A[0], false)
+		sb.WriteByte(')')
 	case OpSExt:
-		fmt.Fprintf(&b, "((_ sign_extend %d) %s)", t.W-t.A[0].W, p.expr(t.A[0], false))
+		fmt.Fprintf(sb, "((_ sign_extend %d) ", t.W-t.A[0].W)
+		c.expr(sb, t.A[0], false)
+		sb.WriteByte(')')
 	default:
-		b.WriteByte('(')
-		b.WriteString(opName[t.Op])
+		sb.WriteByte('(')
+		sb.WriteString(opName[t.Op])
 		for _, a := range t.A {
-			b.WriteByte(' ')
-			b.WriteString(p.expr(a, false))
+			sb.WriteByte(' ')
+			c.expr(sb, a, false)
 		}
-		b.WriteByte(')')
+		sb.WriteByte(')')
 	}
-	return b.String()
 }
 
-// Assert emits (assert t), preceded by any needed definitions.
+// Assert emits (assert t) with let-bound shared sub-terms.
 func (p *Printer) Assert(t *Term) {
-	s := p.expr(t, false)
-	fmt.Fprintf(p.sb, "(assert %s)\n", s)
+	c := &letCtx{ref: map[*Term]int{}, names: map[*Term]string{}}
+	c.count(t)
+	c.collect(t, map[*Term]bool{})
+	p.sb.WriteString("(assert ")
+	for _, n := range c.order {
+		p.sb.WriteString("(let ((")
+		p.sb.WriteString(c.names[n])
+		p.sb.WriteByte(' ')
+		c.expr(p.sb, n, true)
+		p.sb.WriteString(")) ")
+	}
+	c.expr(p.sb, t, false)
+	for range c.order {
+		p.sb.WriteByte(')')
+	}
+	p.sb.WriteString(")\n")
 }
 
 // Eval evaluates t under a model (variable name -> value). Missing variables are 0.
